@@ -108,8 +108,22 @@ def run(ctx):
             desc = {"affine_kind": akind, "affine": A.tolist(), "declared_unit": unit, "kind": kind, "size": list(size), "input_dtype": in_dt,
                     "scaled_header": scaled, "ignore_scaling": ignore, "input_max": input_max, "options": opts}
             try:
-                rc = volume_reader.volume_file_to_info(path, dest, ignore_scaling=ignore, input_max=input_max,
-                                                       options=opts)
+                if rng.random() < 0.35:
+                    # through the command line: volume-to-precomputed --generate-info (argparse glue)
+                    from neuroglancer_scripts.scripts import volume_to_precomputed as _cli
+                    argv = ["volume-to-precomputed", "--generate-info", path, dest]
+                    argv += ["--ignore-scaling"] if ignore else []
+                    argv += ["--input-max", repr(input_max)] if input_max is not None else []
+                    argv += ["--sharding", opts["sharding"]] if opts.get("sharding") else []
+                    argv += ["--no-gzip"] if opts.get("gzip") is False else []
+                    ctx.bump("cli_runs")
+                    try:
+                        rc = _cli.main(argv)
+                    except SystemExit as exc:
+                        rc = exc.code
+                else:
+                    rc = volume_reader.volume_file_to_info(path, dest, ignore_scaling=ignore, input_max=input_max,
+                                                           options=opts)
             except Exception as exc:  # noqa
                 ctx.oracle_fail(f"volume_file_to_info raised {type(exc).__name__}: {exc}", desc)
                 continue
